@@ -518,6 +518,47 @@ func (f *Frame) loopInvariants(li *loopInfo, spec *LoopSpec, phis []*ssa.Phi) []
 			return And(cs...)
 		}})
 	}
+	// auto: in a function with a modifies clause, heap keys under the clause
+	// are unchanged at every loop head except at the named references
+	if f.block != nil && len(f.block.Modifies) > 0 && !f.block.Flags["trusted"] && f.parent == nil && f.entry != nil && !f.spec {
+		out = append(out, invariant{name: "automodifies", text: "auto: frame of the modifies clause holds at the loop head", eval: func(f *Frame, st *State, phis []*ssa.Phi, next map[*ssa.Phi][]Term) Term {
+			c := f.ctx
+			refsByPrefix := f.frameRefs(f.block, f.fn.Params, f.argVals, f.entry.clone())
+			var keys []string
+			for key := range st.Heap {
+				keys = append(keys, key)
+			}
+			sort.Strings(keys)
+			var cs []Term
+			for _, key := range keys {
+				var refs []Term
+				hit := false
+				for prefix, rs := range refsByPrefix {
+					if strings.HasPrefix(key, prefix) {
+						hit = true
+						refs = append(refs, rs...)
+					}
+				}
+				if !hit {
+					continue
+				}
+				fin := st.Heap[key]
+				ent := c.heapGet(f.entry, key, fin.Sort)
+				if ent.S == fin.S {
+					continue
+				}
+				c.n++
+				q := Term{fmt.Sprintf("fr!%d", c.n), SInt}
+				var ne []Term
+				for _, rf := range refs {
+					ne = append(ne, Not(Eq(q, rf)))
+				}
+				ne = append(ne, Lt(q, f.entry.Alloc))
+				cs = append(cs, Forall([]Term{q}, Implies(And(ne...), Eq(Select(fin, q), Select(ent, q))), []Term{Select(fin, q)}))
+			}
+			return And(cs...)
+		}})
+	}
 	// auto: range-index loops (idx = phi[-1, idx+1]; next := idx+1; if next < N): idx < N
 	for pi, p := range phis {
 		if p.Comment != "rangeindex" {
